@@ -2,8 +2,8 @@
    the corresponding WHOLE methods of /repo's retrospective.py, regenerated on every run (Generated/SrcRetroGen.v, by
    harness/py2gal.py with the configurations C13_SAMPLE_SEG ... of harness/src_functions.py), for all inputs. *)
 From Coq Require Import ZArith List Bool Arith Lia ZifyBool Permutation.
-From Batchie Require Import Lib.Sexp Lib.PyRt Model.Encode Model.Screen Model.Retro Model.RetroHoldout
-  Generated.SrcRetro Generated.SrcRetroGen Proofs.PyRtLemmas Proofs.C11Lib Proofs.C11Select Proofs.C13SampleSeg Proofs.C13Optimal Proofs.C13NPlate Proofs.C13SparseTerm Proofs.C11Source.
+From Batchie Require Import Lib.Sexp Lib.PyRt Model.Encode Model.Screen Model.Retro Model.RetroHoldout Model.RetroInit
+  Generated.SrcRetro Generated.SrcRetroGen Proofs.PyRtLemmas Proofs.C11Lib Proofs.C11Select Proofs.C13SampleSeg Proofs.C13Optimal Proofs.C13NPlate Proofs.C13Filter Proofs.C11Init Proofs.C13SparseTerm Proofs.C11Source.
 Import ListNotations.
 Open Scope nat_scope.
 
@@ -560,4 +560,390 @@ Proof.
   - rewrite <- (map_const_true rows). exact (Hcore (fun _ => true)).
   - exact (Hcore (fun r => negb (name_mem (r_plate r) (x :: l)))).
   - rewrite <- (map_const_true rows). exact (Hcore (fun _ => true)).
+Qed.
+
+(* ---------- create_random_holdout ---------- *)
+Theorem src_random_holdout_is_model : forall num den count rows ds,
+  src_random_holdout num den count rows ds = holdout_random num den count rows ds.
+Proof.
+  intros num den count rows ds. unfold src_random_holdout, holdout_random.
+  destruct ((num <? 0)%Z || (Z.pos den <? num)%Z); [reflexivity|].
+  unfold choose, ceil_size. destruct (take_ints ds) as [[idx ds']|t]; cbn [res_bind]; [|reflexivity].
+  destruct (negb (Z.of_nat (length idx) =? match count with Some c => c | None => ceil_frac (length rows) num den end)%Z);
+    cbn [res_bind]; [reflexivity|].
+  unfold set_true. rewrite repeat_false_vof_idx, vor_vof_idx. cbn [app].
+  unfold split_by, screen_without, screen_observed_of.
+  destruct (construct (vselect (map negb (vof_idx (length rows) idx)) rows)) as [k|t]; cbn [res_bind]; [|reflexivity].
+  destruct (construct (map (set_mask true) (vselect (vof_idx (length rows) idx) rows))) as [h|t]; reflexivity.
+Qed.
+
+(* ---------- SparseCoverPlateGenerator._generate_and_unmask_initial_plate ---------- *)
+Lemma existsb_map {A B} (g : A -> B) (p : B -> bool) : forall l, existsb p (map g l) = existsb (fun x => p (g x)) l.
+Proof. induction l as [|a l IH]; [reflexivity|]. cbn [map existsb]. now rewrite IH. Qed.
+Lemma existsb_ext' {A} (p q : A -> bool) : (forall x, p x = q x) -> forall l, existsb p l = existsb q l.
+Proof. intros H. induction l as [|a l IH]; [reflexivity|]. cbn [existsb]. now rewrite H, IH. Qed.
+Lemma vand_map {A} (f g : A -> bool) : forall l, vand (map f l) (map g l) = map (fun x => f x && g x) l.
+Proof. induction l as [|a l IH]; [reflexivity|]. cbn [map vand]. now rewrite IH. Qed.
+Lemma vec_positions_map (F : row -> bool) : forall rows, vec_positions (map F rows) = idx_where F rows.
+Proof.
+  intros rows. unfold vec_positions, idx_where. generalize 0.
+  induction rows as [|r rows IH]; intros k; [reflexivity|]. cbn [map enum_from filter fst snd].
+  destruct (F r); cbn [map fst]; now rewrite IH.
+Qed.
+Lemma positions_of_map (F : row -> bool) : forall rows n, n = length rows ->
+  positions_of n (map F rows) = Ok (idx_where F rows).
+Proof. intros rows n ->. unfold positions_of. now rewrite map_length, Nat.eqb_refl, vec_positions_map. Qed.
+
+(* the invariants of the two loops: the source's set of covered ids has the elements of the model's list, and the chosen
+   row numbers are row numbers of the screen *)
+Definition same_ids (a b : list tid) : Prop := forall t, tid_mem t a = tid_mem t b.
+Definition in_range (rows : list row) (chosen : list nat) : Prop := Forall (fun i => i < length rows) chosen.
+
+Lemma tid_mem_app : forall t a b, tid_mem t (a ++ b) = tid_mem t a || tid_mem t b.
+Proof. intros. unfold tid_mem. apply existsb_app. Qed.
+
+Lemma rows_at_ok : forall ctrl rows idx, in_range rows idx ->
+  rows_at (treatment_ids ctrl rows) idx
+  = Ok (map (fun i => match nth_error rows i with Some r => row_tids ctrl r | None => [] end) idx).
+Proof.
+  intros ctrl rows idx H. unfold rows_at, treatment_ids. induction H as [|i idx Hi _ IH]; [reflexivity|].
+  cbn [res_map_all map]. rewrite nth_error_map. destruct (nth_error rows i) as [r|] eqn:E.
+  - cbn [option_map res_bind]. now rewrite IH.
+  - apply nth_error_None in E. lia.
+Qed.
+
+Lemma covered_step : forall ctrl rows chosen covered i, same_ids covered (tids_at ctrl rows chosen) ->
+  same_ids (covered ++ tids_at ctrl rows (chosen ++ [i])) (tids_at ctrl rows (chosen ++ [i])).
+Proof.
+  intros ctrl rows chosen covered i H t. rewrite tid_mem_app, H, tids_at_app, tid_mem_app.
+  destruct (tid_mem t (tids_at ctrl rows chosen)), (tid_mem t (tids_at ctrl rows [i])); reflexivity.
+Qed.
+
+Lemma offered_in_range : forall (F : row -> bool) rows i, memb i (idx_where F rows) = true -> i < length rows.
+Proof.
+  intros F rows i H. apply memb_In, In_idx_where in H as (r & Hn & _). apply nth_error_Some. congruence.
+Qed.
+
+(* what one rng.choice(offered, size=1) followed by the two updates does, in both loops *)
+Lemma choose_and_cover {B} : forall ctrl rows (F : row -> bool) chosen ds (k : nat -> list draw -> list (list tid) -> result B),
+  in_range rows chosen ->
+  (dor (ci, d) <- choose_one (idx_where F rows) ds;
+   dor r <- rows_at (treatment_ids ctrl rows) (chosen ++ [ci]);
+   k ci d r)
+  = match ds with
+    | DInts [i] :: ds1 =>
+        if memb i (idx_where F rows)
+        then k i ds1 (map (fun j => match nth_error rows j with Some r => row_tids ctrl r | None => [] end) (chosen ++ [i]))
+        else Err 94%Z
+    | DInts _ :: _ => Err 91%Z
+    | _ => Err 90%Z
+    end.
+Proof.
+  intros ctrl rows F chosen ds k HR. unfold choose_one.
+  destruct ds as [|[[|i [|j l]]|nm] ds1]; cbn [res_bind]; try reflexivity.
+  destruct (memb i (idx_where F rows)) eqn:E; cbn [res_bind]; [|reflexivity].
+  rewrite rows_at_ok; [reflexivity|].
+  apply Forall_app. split; [exact HR|]. constructor; [|constructor]. eapply offered_in_range; eassumption.
+Qed.
+
+(* the body of the per-sample loop *)
+Definition sc_for_body (ctrl : name) (rows : screen_t) (st : bvec * list draw * list nat * list tid) (s : name)
+  : result (bvec * list draw * list nat * list tid) :=
+  let '(sv, ds, chosen, covered) := st in
+  let sv1 := vand (map (in_sample s) rows) (any_rows (not2 (isin2 (treatment_ids ctrl rows) covered))) in
+  dor (si, d1, ci1, ch1, cov1, sv2) <-
+    (if (Z.of_nat (vcount sv1) >? 0)%Z then
+       dor r2 <- positions_of (length sv1) sv1;
+       dor (ci, d) <- choose_one r2 ds;
+       dor r3 <- rows_at (treatment_ids ctrl rows) (chosen ++ [ci]);
+       Ok (r2, d, ci, chosen ++ [ci], covered ++ concat r3, sv1)
+     else
+       dor r4 <- positions_of (length (map (in_sample s) rows)) (map (in_sample s) rows);
+       dor (ci, d) <- choose_one r4 ds;
+       dor r5 <- rows_at (treatment_ids ctrl rows) (chosen ++ [ci]);
+       Ok (r4, d, ci, chosen ++ [ci], covered ++ concat r5, map (in_sample s) rows));
+  Ok (sv2, d1, ch1, cov1).
+
+Lemma sc_for_body_step : forall ctrl rows sv ds chosen covered s,
+  same_ids covered (tids_at ctrl rows chosen) -> in_range rows chosen ->
+  exists sv', length sv' = length rows /\
+    sc_for_body ctrl rows (sv, ds, chosen, covered) s
+    = match ds with
+      | DInts [i] :: ds1 =>
+          if memb i (sc_offer_sample ctrl rows s chosen)
+          then Ok (sv', ds1, chosen ++ [i], covered ++ tids_at ctrl rows (chosen ++ [i]))
+          else Err 94%Z
+      | DInts _ :: _ => Err 91%Z
+      | _ => Err 90%Z
+      end.
+Proof.
+  intros ctrl rows sv ds chosen covered s HC HR. unfold sc_for_body.
+  set (F := fun r => in_sample s r && existsb (fun t => negb (tid_mem t (tids_at ctrl rows chosen))) (row_tids ctrl r)).
+  assert (vand (map (in_sample s) rows) (any_rows (not2 (isin2 (treatment_ids ctrl rows) covered))) = map F rows) as ->.
+  { unfold any_rows, not2, isin2, treatment_ids. rewrite !map_map, vand_map. apply map_ext. intros r. subst F. cbv beta. f_equal.
+    rewrite !existsb_map. apply existsb_ext'. intros t. now rewrite HC. }
+  rewrite vcount_map, <- idx_where_length.
+  unfold sc_offer_sample. fold F.
+  destruct (idx_where F rows) as [|j0 js] eqn:EF.
+  - cbn [length Retro.is_nil]. destruct (Z.of_nat 0 >? 0)%Z eqn:E0; [lia|].
+    exists (map (in_sample s) rows). split; [apply map_length|].
+    rewrite positions_of_map by (now rewrite map_length). cbn [res_bind].
+    rewrite (choose_and_cover ctrl rows (in_sample s) chosen ds) by exact HR.
+    destruct ds as [|[[|i [|j l]]|nm] ds1]; try reflexivity.
+    destruct (memb i (idx_where (in_sample s) rows)); reflexivity.
+  - cbn [length Retro.is_nil]. destruct (Z.of_nat (S (length js)) >? 0)%Z eqn:E0; [|lia].
+    exists (map F rows). split; [apply map_length|].
+    rewrite positions_of_map by (now rewrite map_length). cbn [res_bind]. rewrite <- EF.
+    rewrite (choose_and_cover ctrl rows F chosen ds) by exact HR.
+    destruct ds as [|[[|i [|j l]]|nm] ds1]; try reflexivity.
+    destruct (memb i (idx_where F rows)); reflexivity.
+Qed.
+
+Lemma in_range_snoc : forall ctrl rows s chosen i, in_range rows chosen ->
+  memb i (sc_offer_sample ctrl rows s chosen) = true -> in_range rows (chosen ++ [i]).
+Proof.
+  intros ctrl rows s chosen i HR H. apply Forall_app. split; [exact HR|]. constructor; [|constructor].
+  unfold sc_offer_sample in H. destruct (Retro.is_nil _); eapply offered_in_range; eassumption.
+Qed.
+
+Lemma sc_for (ctrl : name) (rows : screen_t)
+      (f : bvec * list draw * list nat * list tid -> name -> result (bvec * list draw * list nat * list tid)) :
+  (forall sv ds chosen covered s, f (sv, ds, chosen, covered) s = sc_for_body ctrl rows (sv, ds, chosen, covered) s) ->
+  forall samples sv ds chosen covered,
+    same_ids covered (tids_at ctrl rows chosen) -> in_range rows chosen ->
+    match sc_samples ctrl rows samples chosen ds with
+    | Ok (chosen', ds') =>
+        exists sv' covered', res_fold f samples (sv, ds, chosen, covered) = Ok (sv', ds', chosen', covered')
+                             /\ same_ids covered' (tids_at ctrl rows chosen') /\ in_range rows chosen'
+                             /\ (length sv' = length rows \/ (samples = [] /\ sv' = sv))
+    | Err t => res_fold f samples (sv, ds, chosen, covered) = Err t
+    end.
+Proof.
+  intros Hf. induction samples as [|s samples IH]; intros sv ds chosen covered HC HR; cbn [sc_samples res_fold].
+  - exists sv, covered. repeat split; auto.
+  - rewrite Hf. destruct (sc_for_body_step ctrl rows sv ds chosen covered s HC HR) as (sv1 & HL1 & ->).
+    destruct ds as [|[[|i [|j l]]|nm] ds1]; try reflexivity.
+    destruct (memb i (sc_offer_sample ctrl rows s chosen)) eqn:E; [|reflexivity]. cbn [res_bind].
+    specialize (IH sv1 ds1 (chosen ++ [i]) (covered ++ tids_at ctrl rows (chosen ++ [i]))
+                   (covered_step ctrl rows chosen covered i HC) (in_range_snoc ctrl rows s chosen i HR E)).
+    destruct (sc_samples ctrl rows samples (chosen ++ [i]) ds1) as [[chosen' ds']|t]; [|exact IH].
+    destruct IH as (sv' & covered' & H1 & H2 & H3 & H4). exists sv', covered'. repeat split; try assumption.
+    left. destruct H4 as [H4|[_ ->]]; assumption.
+Qed.
+
+(* the body of the while loop; n = selection_vector.size *)
+Definition sc_while_body (ctrl : name) (rows : screen_t) (n : nat) (st : list draw * list nat * list tid * list tid)
+  : result (bool * (list draw * list nat * list tid * list tid)) :=
+  let '(ds, chosen, covered, rem) := st in
+  if negb (zlen rem >? 0)%Z then Ok (false, (ds, chosen, covered, rem))
+  else
+    dor r6 <- positions_of n (any_rows (isin2 (treatment_ids ctrl rows) rem));
+    dor (ci, d) <- choose_one r6 ds;
+    dor r7 <- rows_at (treatment_ids ctrl rows) (chosen ++ [ci]);
+    Ok (true, (d, chosen ++ [ci], covered ++ concat r7,
+               setdiff_ids (treatment_ids ctrl rows) (covered ++ concat r7))).
+
+Lemma remaining_eq : forall ctrl rows chosen covered, same_ids covered (tids_at ctrl rows chosen) ->
+  setdiff_ids (treatment_ids ctrl rows) covered = sc_remaining ctrl rows chosen.
+Proof.
+  intros ctrl rows chosen covered H. unfold setdiff_ids, sc_remaining, treatment_ids, all_tids.
+  apply filter_ext. intros t. now rewrite H.
+Qed.
+
+(* one evaluation of the while body *)
+Lemma sc_while_step : forall ctrl rows n ds chosen covered, n = length rows ->
+  same_ids covered (tids_at ctrl rows chosen) -> in_range rows chosen ->
+  sc_while_body ctrl rows n (ds, chosen, covered, setdiff_ids (treatment_ids ctrl rows) covered)
+  = if Retro.is_nil (sc_remaining ctrl rows chosen)
+    then Ok (false, (ds, chosen, covered, setdiff_ids (treatment_ids ctrl rows) covered))
+    else match ds with
+         | DInts [i] :: ds1 =>
+             if memb i (sc_offer_loop ctrl rows chosen)
+             then Ok (true, (ds1, chosen ++ [i], covered ++ tids_at ctrl rows (chosen ++ [i]),
+                             setdiff_ids (treatment_ids ctrl rows) (covered ++ tids_at ctrl rows (chosen ++ [i]))))
+             else Err 94%Z
+         | DInts _ :: _ => Err 91%Z
+         | _ => Err 90%Z
+         end.
+Proof.
+  intros ctrl rows n ds chosen covered Hn HC HR. unfold sc_while_body.
+  rewrite (remaining_eq ctrl rows chosen covered HC). unfold zlen, sc_offer_loop.
+  destruct (sc_remaining ctrl rows chosen) as [|t0 ts] eqn:ER; cbn [Retro.is_nil length]; [reflexivity|].
+  destruct (negb (Z.of_nat (S (length ts)) >? 0)%Z) eqn:E0; [lia|].
+  set (F := fun r => existsb (fun t => tid_mem t (t0 :: ts)) (row_tids ctrl r)).
+  assert (any_rows (isin2 (treatment_ids ctrl rows) (t0 :: ts)) = map F rows) as ->.
+  { unfold any_rows, isin2, treatment_ids. rewrite !map_map. apply map_ext. intros r. subst F. cbv beta. apply existsb_map. }
+  rewrite positions_of_map by exact Hn. cbn [res_bind].
+  rewrite (choose_and_cover ctrl rows F chosen ds) by exact HR.
+  destruct ds as [|[[|i [|j l]]|nm] ds1]; reflexivity.
+Qed.
+
+Lemma in_range_snoc_loop : forall ctrl rows chosen i, in_range rows chosen ->
+  memb i (sc_offer_loop ctrl rows chosen) = true -> in_range rows (chosen ++ [i]).
+Proof.
+  intros ctrl rows chosen i HR H. apply Forall_app. split; [exact HR|]. constructor; [|constructor].
+  eapply offered_in_range; eassumption.
+Qed.
+
+(* the while loop against the model's recursion on the recorded answers.  Sufficient fuel, either way: more than the number
+   of recorded answers (every iteration reads one), or more than the number of distinct treatment ids still to cover
+   (every iteration covers at least one more: C13_sparse_cover_loop_progress) *)
+Lemma sc_while (ctrl : name) (rows : screen_t) (n : nat)
+      (bd : list draw * list nat * list tid * list tid -> result (bool * (list draw * list nat * list tid * list tid))) :
+  n = length rows ->
+  (forall ds chosen covered rem, bd (ds, chosen, covered, rem) = sc_while_body ctrl rows n (ds, chosen, covered, rem)) ->
+  forall fuel ds chosen covered,
+    length ds < fuel \/ ndistinct (sc_remaining ctrl rows chosen) < fuel ->
+    same_ids covered (tids_at ctrl rows chosen) -> in_range rows chosen ->
+    match sc_loop ctrl rows chosen ds with
+    | Ok (chosen', ds') =>
+        exists covered' rem', res_while fuel bd (ds, chosen, covered, setdiff_ids (treatment_ids ctrl rows) covered)
+                              = Ok (ds', chosen', covered', rem')
+    | Err t => res_while fuel bd (ds, chosen, covered, setdiff_ids (treatment_ids ctrl rows) covered) = Err t
+    end.
+Proof.
+  intros Hn Hbd. induction fuel as [|fuel IH]; intros ds chosen covered Hfuel HC HR; [lia|].
+  cbn [res_while]. rewrite Hbd, (sc_while_step ctrl rows n ds chosen covered Hn HC HR).
+  assert (sc_loop ctrl rows chosen ds =
+          if Retro.is_nil (sc_remaining ctrl rows chosen) then Ok (chosen, ds)
+          else match ds with
+               | DInts [i] :: ds1 => if memb i (sc_offer_loop ctrl rows chosen) then sc_loop ctrl rows (chosen ++ [i]) ds1 else Err 94%Z
+               | DInts _ :: _ => Err 91%Z
+               | _ => Err 90%Z
+               end) as -> by (destruct ds; reflexivity).
+  destruct (Retro.is_nil (sc_remaining ctrl rows chosen)); [cbn; eauto|].
+  destruct ds as [|[[|i [|j l]]|nm] ds1]; try reflexivity.
+  destruct (memb i (sc_offer_loop ctrl rows chosen)) eqn:E; [|reflexivity]. cbn [res_bind fst snd].
+  apply IH; [| now apply covered_step | eapply in_range_snoc_loop; eassumption].
+  destruct Hfuel as [Hfuel|Hfuel]; [left; cbn [length] in Hfuel; lia|right].
+  pose proof (loop_step_decreases ctrl rows chosen i (proj1 (memb_In _ _) E)). lia.
+Qed.
+
+(* the final Screen(...) *)
+Lemma final_rows : forall rows (final : bvec), length final = length rows ->
+  map (fun x : row * Z * name * bool =>
+         {| r_sample := r_sample (fst (fst (fst x))); r_plate := snd (fst x); r_treats := r_treats (fst (fst (fst x)));
+            r_obs := snd (fst (fst x)); r_mask := snd x |})
+      (combine (combine (combine rows (map r_obs rows))
+                        (map (fun nb : name * bool => if snd nb then fst nb else unobserved_plate)
+                             (combine (repeat initial_plate (length rows)) final))) final)
+  = map (fun br => set_mask (fst br) (set_plate (if fst br then initial_plate else unobserved_plate) (snd br))) (combine final rows).
+Proof.
+  induction rows as [|r rows IH]; intros [|b final] H; cbn [length] in H; try lia; [reflexivity|].
+  cbn [length repeat map combine fst snd]. rewrite IH by lia. destruct b; reflexivity.
+Qed.
+
+Lemma tid_eqb_sym : forall a b, tid_eqb a b = tid_eqb b a.
+Proof.
+  intros a b. destruct (tid_eqb a b) eqn:E1, (tid_eqb b a) eqn:E2; try reflexivity.
+  - apply tid_eqb_eq in E1. subst. rewrite (proj2 (tid_eqb_eq b b) eq_refl) in E2. discriminate.
+  - apply tid_eqb_eq in E2. subst. rewrite (proj2 (tid_eqb_eq a a) eq_refl) in E1. discriminate.
+Qed.
+
+(* equal to the model's inner part (everything after the fully-observed check of the public wrapper) whenever the explicit
+   while-fuel exceeds the number of recorded answers: every iteration of the while loop reads one *)
+Definition sparse_cover_inner (ctrl : name) (reveal : bool) (rows : list row) (ds : list draw) : result (list row * list draw) :=
+  dor a <- sc_samples ctrl rows (sample_names rows) [] ds;
+  let '(chosen1, ds1) := a in
+  dor b <- sc_loop ctrl rows chosen1 ds1;
+  let '(chosen, ds2) := b in
+  let final0 := vof_idx (length rows) chosen in
+  let final := if reveal then vor final0 (map (fun r => tid_mem None (row_tids ctrl r)) rows) else final0 in
+  dor c <- construct (map (fun br => set_mask (fst br) (set_plate (if fst br then initial_plate else unobserved_plate) (snd br)))
+                          (combine final rows));
+  Ok (c, ds2).
+
+Lemma sparse_cover_unfold : forall ctrl reveal rows ds,
+  sparse_cover ctrl reveal rows ds = if negb (forallb r_mask rows) then Err 8%Z else sparse_cover_inner ctrl reveal rows ds.
+Proof. reflexivity. Qed.
+
+Lemma sc_samples_consumes : forall ctrl rows samples chosen ds chosen' ds',
+  sc_samples ctrl rows samples chosen ds = Ok (chosen', ds') -> length ds' <= length ds.
+Proof.
+  intros ctrl rows samples. induction samples as [|s samples IH]; intros chosen ds chosen' ds' H; cbn [sc_samples] in H.
+  - inversion H. lia.
+  - destruct ds as [|[[|i [|j l]]|nm] ds1]; try discriminate.
+    destruct (memb i (sc_offer_sample ctrl rows s chosen)); [|discriminate]. apply IH in H. cbn [length]. lia.
+Qed.
+
+Lemma sample_names_nil : forall rows, sample_names rows = [] -> rows = [].
+Proof.
+  intros [|r rows] H; [reflexivity|]. exfalso.
+  assert (In (r_sample r) (sample_names (r :: rows))) as Hin by (apply In_sample_names; exists r; split; [now left|reflexivity]).
+  rewrite H in Hin. contradiction.
+Qed.
+
+Lemma single_drug_vec : forall ctrl rows,
+  any_rows (isin2 (treatment_ids ctrl rows) [None]) = map (fun r => tid_mem None (row_tids ctrl r)) rows.
+Proof.
+  intros ctrl rows. unfold any_rows, isin2, treatment_ids. rewrite !map_map. apply map_ext. intros r.
+  rewrite existsb_map. unfold tid_mem. apply existsb_ext'. intros t. cbn [existsb]. rewrite orb_false_r. apply tid_eqb_sym.
+Qed.
+
+Theorem src_sparse_cover_is_inner : forall ctrl reveal rows ds fuel,
+  length ds < fuel \/ ndistinct (all_tids ctrl rows) < fuel ->
+  src_sparse_cover ctrl reveal rows ds fuel = sparse_cover_inner ctrl reveal rows ds.
+Proof.
+  intros ctrl reveal rows ds fuel Hfuel. unfold src_sparse_cover, sparse_cover_inner.
+  match goal with |- context [res_fold ?f (sample_names rows) ?st] =>
+    pose proof (sc_for ctrl rows f ltac:(intros; reflexivity) (sample_names rows) [] ds [] []
+                       (fun t => eq_refl) (Forall_nil _)) as Hfor end.
+  destruct (sc_samples ctrl rows (sample_names rows) [] ds) as [[chosen1 ds1]|t] eqn:E1; cbn [res_bind]; [|now rewrite Hfor].
+  destruct Hfor as (sv' & covered' & -> & HC & HR & HL). cbn [res_bind].
+  assert (length sv' = length rows) as HL'.
+  { destruct HL as [HL|[Hs ->]]; [exact HL|]. apply sample_names_nil in Hs. now subst. }
+  apply sc_samples_consumes in E1.
+  assert (length ds1 < fuel \/ ndistinct (sc_remaining ctrl rows chosen1) < fuel) as Hfuel1.
+  { destruct Hfuel as [Hfuel|Hfuel]; [left; lia|right].
+    pose proof (ndistinct_incl _ _ (remaining_incl_all ctrl rows chosen1)). lia. }
+  match goal with |- context [res_while fuel ?bd ?st] =>
+    pose proof (sc_while ctrl rows (length sv') bd HL' ltac:(intros; reflexivity) fuel ds1 chosen1 covered'
+                         Hfuel1 HC HR) as Hwh end.
+  destruct (sc_loop ctrl rows chosen1 ds1) as [[chosen ds2]|t]; cbn [res_bind]; [|now rewrite Hwh].
+  destruct Hwh as (covered'' & rem' & ->). cbn [res_bind].
+  set (final := if reveal then vor (vof_idx (length rows) chosen) (map (fun r => tid_mem None (row_tids ctrl r)) rows)
+                else vof_idx (length rows) chosen).
+  assert ((if reveal then Ok (vor (vof_idx (length rows) chosen) (any_rows (isin2 (treatment_ids ctrl rows) [None])))
+           else Ok (vof_idx (length rows) chosen)) = Ok final) as ->.
+  { subst final. rewrite single_drug_vec. destruct reveal; reflexivity. }
+  cbn [res_bind].
+  assert (length final = length rows) as HLf.
+  { subst final. destruct reveal; [rewrite vor_length, map_length|]; rewrite vof_idx_length; lia. }
+  unfold label_unobserved. rewrite repeat_length, HLf, Nat.eqb_refl. cbn [res_bind].
+  unfold screen_with. rewrite !map_length, combine_length, repeat_length, HLf, Nat.min_id, Nat.eqb_refl. cbn [andb].
+  rewrite (final_rows rows final HLf).
+  destruct (construct _); reflexivity.
+Qed.
+
+(* ---------- InitialRetrospectivePlateGenerator.generate_and_unmask_initial_plate (core.py) ---------- *)
+Theorem src_initial_wrapper_is_check : forall (f : initial_inner) rows ds,
+  src_generate_and_unmask_initial_plate f rows ds = if negb (forallb r_mask rows) then Err 8%Z else f rows ds.
+Proof.
+  intros f rows ds. unfold src_generate_and_unmask_initial_plate. destruct (negb (forallb r_mask rows)); [reflexivity|].
+  destruct (f rows ds) as [[r d]|t]; reflexivity.
+Qed.
+
+(* the public method on a SparseCoverPlateGenerator = the translated wrapper around the translated inner method: the model *)
+Theorem src_sparse_cover_is_model : forall ctrl reveal rows ds fuel,
+  length ds < fuel \/ ndistinct (all_tids ctrl rows) < fuel ->
+  src_generate_and_unmask_initial_plate (fun s d => src_sparse_cover ctrl reveal s d fuel) rows ds
+  = sparse_cover ctrl reveal rows ds.
+Proof.
+  intros ctrl reveal rows ds fuel Hfuel. rewrite src_initial_wrapper_is_check, sparse_cover_unfold.
+  destruct (negb (forallb r_mask rows)); [reflexivity|]. now apply src_sparse_cover_is_inner.
+Qed.
+
+(* with C13_sparse_cover_terminates: on a fully observed screen, with #distinct-treatment-ids + 1 units of fuel, the
+   translated source returns for every answer stream that obeys numpy's choice contract and is long enough - the fuel
+   hypothesis of the link is discharged by the termination argument (every iteration covers a new treatment id) *)
+Theorem src_sparse_cover_terminates : forall ctrl reveal rows ds,
+  forallb r_mask rows = true ->
+  sc_contract ctrl rows (sample_names rows) [] ds ->
+  length (sample_names rows) + ndistinct (all_tids ctrl rows) <= length ds ->
+  exists out ds',
+    src_generate_and_unmask_initial_plate
+      (fun s d => src_sparse_cover ctrl reveal s d (S (ndistinct (all_tids ctrl rows)))) rows ds = Ok (out, ds').
+Proof.
+  intros ctrl reveal rows ds Hobs HC Hlen. rewrite src_sparse_cover_is_model by (right; lia).
+  now apply sparse_cover_terminates.
 Qed.
